@@ -711,8 +711,11 @@ def run(ctx) -> None:
             if a.startswith("os.stat(") and "st_ino" not in a:
                 st_ok = t
         ino = next((t for a, t in c.items() if "st_ino == ev.inode" in a), None)
-        X = (st_ok and ino) if st_ok is not None else None
-        if st_ok is False:
+        # "the item is still at its path": the stat succeeded and reports the event's inode.  The failed stat may show as a falsy
+        # result (`stat = None` in the handler) or as the OSError absorbed at the call (a probe helper that returns False)
+        stat_failed = any(e.kind == "caught" and str(e.text).startswith("OSError") for e in b.evs) and any(e.kind == "raised" and e.extra.get("at", "").startswith("os.stat(") for e in b.evs)
+        X = (st_ok and ino) if st_ok is not None else (ino if ino is not None and not stat_failed else None)
+        if st_ok is False or stat_failed:
             X = False
         elif st_ok is True and ino is False:
             X = False
@@ -915,6 +918,17 @@ def run(ctx) -> None:
             ctx.check(args == want, RN, "override forwards (self, event)", f"the base queue_event is called with {args}, expected {want}", f"{F.module.relpath}:{n.lineno}")
     fsevents_predicates(ctx, P, F)
 
+    # the sub-events both layers emit for a renamed / added directory come from the shared generators: their sources and destinations
+    # decide whether a replay of the stream reproduces the tree below a renamed directory (the rules of C14, shared)
+    RSYN = ctx.rule(
+        "C20/sub-events-name-the-descendants",
+        "every synthetic sub-event of a renamed or added directory carries join(walk root, name) and, for moves, the prefix-anchored rewrite of that path to the old directory as its source (instances shared with C14)",
+        floor=8,
+    )
+    from .c14 import generators as _c14_generators
+
+    _c14_generators(ctx, RSYN, RSYN, P)
+
     native_wiring(ctx, P)
 
     inotify_header(ctx, RH, P)
@@ -1032,7 +1046,24 @@ def run(ctx) -> None:
                         if mt is None:
                             adv_ok, why_adv = False, f"the loop test `{L.text}` is not `<remaining count> > 0`"
                         elif mt.group(1):
-                            k = P.fold(ast.parse(mt.group(2), mode="eval").body, wm)
+                            def fold_bound(x, depth=0):
+                                """an integer bound: a literal / module constant, sizeof(<the structure>), <the structure>.<field>.offset, sums of those"""
+                                v = P.fold(x, wm)
+                                if isinstance(v, int) or depth > 4:
+                                    return v
+                                if isinstance(x, ast.Call) and (dotted(x.func) or "").split(".")[-1] == "sizeof" and len(x.args) == 1 and (dotted(x.args[0]) or "") == "FileNotifyInformation":
+                                    return layout["size"]
+                                if isinstance(x, ast.Attribute) and x.attr == "offset" and isinstance(x.value, ast.Attribute) and (dotted(x.value.value) or "") == "FileNotifyInformation":
+                                    return layout["offsets"].get(x.value.attr)
+                                if isinstance(x, ast.Name) and x.id in wm.consts:
+                                    return fold_bound(wm.consts[x.id], depth + 1)
+                                if isinstance(x, ast.BinOp) and isinstance(x.op, (ast.Add, ast.Sub)):
+                                    a_, b_ = fold_bound(x.left, depth + 1), fold_bound(x.right, depth + 1)
+                                    if isinstance(a_, int) and isinstance(b_, int):
+                                        return a_ + b_ if isinstance(x.op, ast.Add) else a_ - b_
+                                return None
+
+                            k = fold_bound(ast.parse(mt.group(2), mode="eval").body)
                             if not isinstance(k, int):
                                 raise AnalysisError(f"winapi buffer walk: the bound in the loop test `{L.text}` does not fold to an integer")
                             least = k + (1 if mt.group(1) == ">" else 0)
@@ -1056,6 +1087,8 @@ RD_ = "observers/read_directory_changes.py"
 FS = "observers/fsevents.py"
 IC = "observers/inotify_c.py"
 VARIANTS = [
+    dict(name="B Windows walk stops while a short last record remains", expect="fire", rule="C20/windows-buffer-walk", edits=[("observers/winapi.py", "    while n_bytes > 0:", "    while n_bytes >= ctypes.sizeof(FileNotifyInformation):")]),
+    dict(name="E Windows walk bounded by the header size", expect="silent", edits=[("observers/winapi.py", "    while n_bytes > 0:", "    while n_bytes >= FileNotifyInformation.FileName.offset:")]),
     dict(name="B drop the sub-moved loop of the Windows translator", expect="fire", rule="C20/windows-emission-contract", edits=[(RD_, "                        if self.watch.is_recursive:\n                            for sub_moved_event in generate_sub_moved_events(src_path, dest_path):\n                                self.queue_event(sub_moved_event)\n", "")]),
     dict(name="B Windows moved src/dest swapped", expect="fire", rule="C20/windows-emission-contract", edits=[(RD_, "self.queue_event(FileMovedEvent(src_path, dest_path))", "self.queue_event(FileMovedEvent(dest_path, src_path))")]),
     dict(name="B Windows added dir under non-recursive watch gets sub events", expect="fire", rule="C20/windows-emission-contract", edits=[(RD_, "                    if isdir and self.watch.is_recursive:", "                    if isdir:")]),
